@@ -170,15 +170,16 @@ def runLoop {σ : Type} (kind : String) (cond : σ → Bool) (body : σ → σ) 
 def flushCond (i : Nat) (s : List Row × List Resp) : Bool :=
   decide (s.1.length > 0) && (match s.1[i]? with | some row => !hasNil row | none => false)
 
-/-- `pck := Join(w.receives[i]...); w.receives = w.receives[lo:]; …; w.in <- pck` -/
-def flushBody (emptyDropped : Bool) (i lo : Nat) (s : List Row × List Resp) : List Row × List Resp :=
+/-- `pck := joinAccepted(w.receives[i]); w.receives = w.receives[lo:]; …; w.in <- pck`
+(`joinAccepted` itself is read from its own facts below: `C01.join_accepted_as_modelled`) -/
+def flushBody (i lo : Nat) (s : List Row × List Resp) : List Row × List Resp :=
   match s.1[i]? with
-  | some row => (s.1.drop lo, s.2 ++ [respOf emptyDropped row])
+  | some row => (s.1.drop lo, s.2 ++ [respOf row])
   | none => s
 
-theorem runLoop_flush (ed : Bool) (rows : List Row) : ∀ (n : Nat) (acc : List Resp), rows.length ≤ n →
-    runLoop "for" (flushCond 0) (flushBody ed 0 1) n (rows, acc) =
-      some ((flush ed rows).1, acc ++ (flush ed rows).2) := by
+theorem runLoop_flush (rows : List Row) : ∀ (n : Nat) (acc : List Resp), rows.length ≤ n →
+    runLoop "for" (flushCond 0) (flushBody 0 1) n (rows, acc) =
+      some ((flush rows).1, acc ++ (flush rows).2) := by
   induction rows with
   | nil => intro n acc _; cases n <;> simp [runLoop, flushCond, flush]
   | cons row rest ih =>
@@ -195,39 +196,100 @@ end C01
 
 open Uniflow.Generated.WriterFacts
 
+/-! ## `joinAccepted`: the response to a complete row -/
+
+/-- `joinAccepted` as its extracted facts read: the range loop keeps a cell exactly under the extracted condition
+(`pck != refused`: the `refused` marker of a reader that did not accept the write is dropped, every answer is
+kept), the early exit answers with `New(ErrDroppedPacket)` when nothing was kept, otherwise the kept packets are
+`Join`ed. `none`: a shape this reading does not understand. -/
+def C01.joinAcceptedByFacts (cells : List Fill) : Option Resp :=
+  if joinAcceptedLoop.kind = "range" ∧ joinAcceptedLoop.header = "receives" ∧ joinAcceptedLoop.vars = "_,pck" ∧
+     joinAcceptedLoop.hasContinue = false ∧ joinAcceptedLoop.hasBreak = false ∧ joinAcceptedLoop.hasReturn = false then
+    let kept : Option (List Ans) :=
+      if joinAcceptedLoop.body = ["if pck != refused", "  pcks = append(pcks, pck)"] then some (cells.filterMap id)
+      else if joinAcceptedLoop.body = ["pcks = append(pcks, pck)"] then some (cells.map fun c => c.getD Ans.none)
+      else none
+    match kept with
+    | none => none
+    | some pcks =>
+      if joinAcceptedGuards = [("len(pcks) == 0", "return New(ErrDroppedPacket)")] ∧
+         joinAcceptedHeads.getLast? = some "return Join(pcks...)" then
+        some (if pcks.length = 0 then Resp.dropped else join pcks)
+      else if joinAcceptedGuards = [] ∧ joinAcceptedHeads.getLast? = some "return Join(pcks...)" then some (join pcks)
+      else none
+  else none
+
+theorem C01.join_accepted_facts :
+    outline_joinAccepted = [
+      "pcks := make([]*Packet, 0, len(receives))",
+      "for _, pck := range receives",
+      "  if pck != refused",
+      "    pcks = append(pcks, pck)",
+      "if len(pcks) == 0",
+      "  return New(ErrDroppedPacket)",
+      "return Join(pcks...)"] ∧
+    joinAcceptedHeads = ["pcks := make([]*Packet, 0, len(receives))", "for _, pck := range receives",
+      "if len(pcks) == 0", "return Join(pcks...)"] ∧
+    joinAcceptedLoop = ⟨"range", "receives", "_,pck", false, false, false,
+      ["if pck != refused", "  pcks = append(pcks, pck)"]⟩ ∧
+    joinAcceptedGuards = [("len(pcks) == 0", "return New(ErrDroppedPacket)")] := by
+  decide
+
+/-- `joinAccepted` applied to a complete row (no nil cell) is the model's `respOf`: `refused` cells are filtered
+out, nothing left ⇒ `dropped`, otherwise `Join` of the answers. -/
+theorem C01.join_accepted_as_modelled (row : Row) :
+    C01.joinAcceptedByFacts (row.filterMap id) = some (respOf row) := by
+  have h1 : joinAcceptedLoop = ⟨"range", "receives", "_,pck", false, false, false,
+      ["if pck != refused", "  pcks = append(pcks, pck)"]⟩ := by decide
+  have h2 : joinAcceptedGuards = [("len(pcks) == 0", "return New(ErrDroppedPacket)")] := by decide
+  have h3 : joinAcceptedHeads.getLast? = some "return Join(pcks...)" := by decide
+  simp only [C01.joinAcceptedByFacts, h1, h2, h3, and_self, if_true, respOf, accepted]
+  have key : ∀ x : List Ans, (if x.length = 0 then Resp.dropped else join x) =
+      (if x.isEmpty = true then Resp.dropped else join x) := by
+    intro x; cases x <;> simp
+  exact congrArg some (key _)
+
+/-- non-vacuity: a row whose remaining cells are all `refused` is answered `dropped`, a `None` answer is not. -/
+theorem C01.join_accepted_nonvacuous :
+    C01.joinAcceptedByFacts [none] = some Resp.dropped ∧ C01.joinAcceptedByFacts [some Ans.none] = some Resp.none ∧
+    C01.joinAcceptedByFacts [none, some (.val 3)] = some (Resp.val 3) := by
+  decide
+
 /-- `receive` flushes in a LOOP -/
 theorem C01.receive_flush_facts :
     receiveFlushGuard = "head == 0" ∧
     receiveFlushLoop = ⟨"for", "len(w.receives) > 0 && !slices.Contains(w.receives[0], nil)", "", false, false, false,
-      ["pck := Join(w.receives[0]...)", "w.receives = w.receives[1:]", "w.inbounds.Handle(pck)", "w.in <- pck"]⟩ ∧
+      ["pck := joinAccepted(w.receives[0])", "w.receives = w.receives[1:]", "w.inbounds.Handle(pck)", "w.in <- pck"]⟩ ∧
     receiveFlushPop = ⟨0, 1, false, []⟩ := by
   decide
 
 theorem C01.receive_flush_as_modelled (rows : List Row) :
     C01.runLoop receiveFlushLoop.kind (C01.flushCond receiveFlushPop.index)
-      (C01.flushBody false receiveFlushPop.index receiveFlushPop.low) rows.length (rows, []) = some (flush false rows) := by
+      (C01.flushBody receiveFlushPop.index receiveFlushPop.low) rows.length (rows, []) = some (flush rows) := by
   have hk : receiveFlushLoop.kind = "for" := by decide
   have hi : receiveFlushPop.index = 0 := by decide
   have hl : receiveFlushPop.low = 1 := by decide
   rw [hk, hi, hl]
-  simpa using C01.runLoop_flush false rows rows.length [] (Nat.le_refl _)
+  simpa using C01.runLoop_flush rows rows.length [] (Nat.le_refl _)
 
 /-! ## Write -/
 
 /-- The cell `Write` leaves for a reader: `receives` is `make`d all nil; the else-branch of `if r.write(…)` runs for
-a reader that refused. `none`: a branch this reading does not understand. -/
+a reader that refused: the marker `refused` (or, as the code once did, the `None` packet – which the flush cannot
+tell from an accepting reader's `None` answer). `none`: a branch this reading does not understand. -/
 def C01.writeCell (elseB : List String) (refused : Bool) : Option Cell :=
   if !refused then some none
-  else if elseB = ["receives[i] = None"] then some (some Ans.none)
+  else if elseB = ["receives[i] = refused"] then some (some none)
+  else if elseB = ["receives[i] = None"] then some (some (some Ans.none))
   else if elseB = [] then some none
   else none
 
 theorem C01.write_facts :
     writeGuards = [("w.done", "return 0"), ("len(w.readers) == 0", "return 0")] ∧
     writeLoop = ⟨"range", "w.readers", "i,r", false, false, false,
-      ["if r.write(New(pck.Payload()), w, w.links[i])", "  count++", "else", "  receives[i] = None"]⟩ ∧
+      ["if r.write(New(pck.Payload()), w, w.links[i])", "  count++", "else", "  receives[i] = refused"]⟩ ∧
     writeAccepted = "r.write(New(pck.Payload()), w, w.links[i])" ∧
-    writeThen = ["count++"] ∧ writeElse = ["receives[i] = None"] ∧
+    writeThen = ["count++"] ∧ writeElse = ["receives[i] = refused"] ∧
     writeAppendGuard = ("count", ">", 0) ∧
     writeAppendBody = ["w.receives = append(w.receives, receives)"] := by
   decide
@@ -242,7 +304,7 @@ theorem C01.write_row_as_modelled (m : W) (v : Nat) (hd : m.done = false) (hr : 
       (if C01.cmpHolds writeAppendGuard.2.1 (accepting m.closed m.readers).length writeAppendGuard.2.2 = some true
        then m.rows ++ [newRow m.closed m.readers] else m.rows) ∧
     (step m (.write v)).2.ret = .cnt (accepting m.closed m.readers).length := by
-  have h5 : writeElse = ["receives[i] = None"] := by decide
+  have h5 : writeElse = ["receives[i] = refused"] := by decide
   have h6 : writeAppendGuard = ("count", ">", 0) := by decide
   rw [h5, h6]
   refine ⟨?_, ?_, ?_⟩
@@ -380,29 +442,32 @@ theorem C01.receive_guards_as_modelled :
 theorem C01.unlink_flush_facts :
     unlinkFlushGuard = "r == reader" ∧
     unlinkFlushLoop = ⟨"for", "len(w.receives) > 0 && !slices.Contains(w.receives[0], nil)", "", false, false, false,
-      ["pck := New(ErrDroppedPacket)", "if len(w.receives[0]) > 0", "  pck = Join(w.receives[0]...)",
-       "w.receives = w.receives[1:]", "w.inbounds.Handle(pck)", "w.in <- pck"]⟩ ∧
+      ["pck := joinAccepted(w.receives[0])", "w.receives = w.receives[1:]", "w.inbounds.Handle(pck)", "w.in <- pck"]⟩ ∧
     unlinkFlushPop = ⟨0, 1, false, []⟩ := by
   decide
 
-/-- `Unlink`'s flush is the same loop; its body emits `New(ErrDroppedPacket)` for a row that has no column left
-(`respOf true`). -/
+/-- `Unlink`'s flush is the same loop with the same body (`joinAccepted` answers a row that has no column – or no
+accepting reader's column – left with `New(ErrDroppedPacket)`). -/
 theorem C01.unlink_flush_as_modelled (rows : List Row) :
     C01.runLoop unlinkFlushLoop.kind (C01.flushCond unlinkFlushPop.index)
-      (C01.flushBody true unlinkFlushPop.index unlinkFlushPop.low) rows.length (rows, []) = some (flush true rows) := by
+      (C01.flushBody unlinkFlushPop.index unlinkFlushPop.low) rows.length (rows, []) = some (flush rows) := by
   have hk : unlinkFlushLoop.kind = "for" := by decide
   have hi : unlinkFlushPop.index = 0 := by decide
   have hl : unlinkFlushPop.low = 1 := by decide
   rw [hk, hi, hl]
-  simpa using C01.runLoop_flush true rows rows.length [] (Nat.le_refl _)
+  simpa using C01.runLoop_flush rows rows.length [] (Nat.le_refl _)
+
+instance : DecidableEq (List Row × List Resp) := inferInstance
 
 /-- non-vacuity of the loop reading: three rows, the first two complete – the loop emits two responses and stops at
 the row that still owes an answer; read as an `if` (the seeded change c01a) it would emit only one. -/
 theorem C01.flush_loop_nonvacuous :
-    C01.runLoop "for" (C01.flushCond 0) (C01.flushBody false 0 1) 3
-      ([[some (.val 1)], [some (.val 2)], [none]], []) = some ([[none]], [.val 1, .val 2]) ∧
-    C01.runLoop "if" (C01.flushCond 0) (C01.flushBody false 0 1) 3
-      ([[some (.val 1)], [some (.val 2)], [none]], []) = some ([[some (.val 2)], [none]], [.val 1]) := by
+    C01.runLoop "for" (C01.flushCond 0) (C01.flushBody 0 1) 3
+      (([[some (some (.val 1))], [some (some (.val 2))], [none]] : List Row), ([] : List Resp)) =
+        some (([[none]] : List Row), [.val 1, .val 2]) ∧
+    C01.runLoop "if" (C01.flushCond 0) (C01.flushBody 0 1) 3
+      (([[some (some (.val 1))], [some (some (.val 2))], [none]] : List Row), ([] : List Resp)) =
+        some (([[some (some (.val 2))], [none]] : List Row), [.val 1]) := by
   decide
 
 /-- The functions the model follows statement by statement (`receiveWith`, `indexOf`, `indexOfHead`, the `link` and
@@ -424,7 +489,7 @@ theorem C01.receive_outline_as_modelled :
       "receives[index] = pck",
       "if head == 0",
       "  for len(w.receives) > 0 && !slices.Contains(w.receives[0], nil)",
-      "    pck := Join(w.receives[0]...)",
+      "    pck := joinAccepted(w.receives[0])",
       "    w.receives = w.receives[1:]",
       "    w.inbounds.Handle(pck)",
       "    w.in <- pck",
@@ -469,9 +534,7 @@ theorem C01.link_unlink_outline_as_modelled :
       "      if i < len(w.receives[j])",
       "        w.receives[j] = append(w.receives[j][:i], w.receives[j][i+1:]...)",
       "    for len(w.receives) > 0 && !slices.Contains(w.receives[0], nil)",
-      "      pck := New(ErrDroppedPacket)",
-      "      if len(w.receives[0]) > 0",
-      "        pck = Join(w.receives[0]...)",
+      "      pck := joinAccepted(w.receives[0])",
       "      w.receives = w.receives[1:]",
       "      w.inbounds.Handle(pck)",
       "      w.in <- pck",
